@@ -98,8 +98,8 @@ CHECKS: dict[str, dict] = {
     ),
     "C17": dict(
         cat="fault_enumeration", ref="DESIGN.md §3 C17", engine="mc/srvrig.py on E2 vloop",
-        technique="fault enumeration on the real TCP/UDP servers: 9 exception classes x 9 hook positions x connection set-up faults, with 1-2 healthy clients whose exchanges are interleaved with the faulty client's",
-        text="After every injected failure the server keeps serving, every healthy client gets every response, the faulty TCP client's socket is closed and its disconnection hook runs iff documented, a later datagram from the faulty UDP address gets a fresh handler, and no socket leaks. TLS-listener handshake faults are not covered.",
+        technique="fault enumeration on the real TCP/UDP servers: 9 exception classes x 9 hook positions x connection set-up faults, with 1-2 healthy clients whose exchanges are interleaved with the faulty client's; TLS listener (props/c17_tls.py): 20 handshake faults (garbage, EOF, reset, stalled at several offsets, corrupted or missing second flight, ragged end after the handshake, refused version) x TLS 1.2/1.3 next to healthy stdlib-ssl clients",
+        text="After every injected failure the server keeps serving, every healthy client gets every response, the faulty TCP client's socket is closed and its disconnection hook runs iff documented, a later datagram from the faulty UDP address gets a fresh handler, and no socket leaks. For the TLS listener: a failed, stalled (closed at the handshake timeout, not earlier) or cut handshake never stops the server, never delays a healthy TLS client by more than 0.25 virtual seconds per step and never reaches on_connection.",
     ),
     "C13": dict(
         cat="exploration", ref="DESIGN.md §3 C13, §2 E6", engine="E6 progmc on E2 vloop",
@@ -155,7 +155,7 @@ def main() -> None:
             {"name": "E0 core", "path": "mc/core.py", "serves_properties": props, "kind_free_text": "choice-point explorer (deviation-bounded DFS by re-execution), job runner, evidence/replay/known-findings plumbing"},
             {"name": "E1 world", "path": "mc/world.py", "serves_properties": ["C03", "C04", "C05", "C10", "C11", "C12", "C14", "C15", "C16", "C17", "C18", "C19", "C20"], "kind_free_text": "virtual clock, pipes, FakeSocket (socket.socket subclass, in-memory I/O whose answers the explorer chooses), VSelector"},
             {"name": "E2 vloop", "path": "mc/vloop.py", "serves_properties": ["C04", "C10", "C12", "C13", "C14", "C15", "C16", "C17", "C18", "C19", "C20"], "kind_free_text": "the stock asyncio SelectorEventLoop driven by the virtual world"},
-            {"name": "E7 tlsrig", "path": "mc/tlsrig.py", "serves_properties": ["C04", "C08", "C09", "C10", "C11", "C12", "C14"], "kind_free_text": "Ed25519 test certificate, independent stdlib SSLObject peer, byte-level ciphertext relay (fragment / cut / hold), in-memory leaf transport, blocking variant over a socketpair"},
+            {"name": "E7 tlsrig", "path": "mc/tlsrig.py", "serves_properties": ["C04", "C08", "C09", "C10", "C11", "C12", "C14", "C17"], "kind_free_text": "Ed25519 test certificate, independent stdlib SSLObject peer, byte-level ciphertext relay (fragment / cut / hold), in-memory leaf transport, blocking variant over a socketpair"},
             {"name": "srvrig", "path": "mc/srvrig.py", "serves_properties": ["C12", "C14", "C15", "C16", "C17"], "kind_free_text": "real EasyNetwork servers on fake listener / datagram sockets, scripted peers placed at loop-iteration boundaries, handler recorder"},
             {"name": "E6 progmc", "path": "mc/progmc.py", "serves_properties": ["C13"], "kind_free_text": "program enumerator for the cancel-scope grammar, reference interpreter, real interpreter on the virtual loop, trace diff"},
             {"name": "E4 vthreads", "path": "mc/vthreads.py", "serves_properties": ["C11", "C12", "C18"], "kind_free_text": "baton-passing scheduler of real threads: controlled Lock/RLock/Event/Condition/Thread swapped into the library's modules, cooperating event loop, preemption-bounded choices, virtual deadlines, deadlock detection"},
